@@ -123,6 +123,13 @@ STREAMS = [
     ("ok", "F-", 7, 9, 0, 2, 2, "thorough", 1800),
     ("ok", "F+", 3, 6, 0, 3, 3, "thorough", 3600),
     ("ok", "G F0", 2, 3, 3, 2, 2, "thorough", 3600),
+    ("ok", "F- G F+", 3, 3, 2, 2, 2, "thorough", 3600),
+    ("ok", "F+ G F-", 2, 3, 2, 3, 2, "thorough", 3600),
+    ("ok", "F+", 3, 9, 0, 3, 3, "thorough", 3600),
+    ("ok", "F-", 3, 9, 0, 3, 3, "thorough", 3600),
+    ("ok", "G F- G", 3, 3, 3, 2, 2, "thorough", 3600),
+    ("ok", "F0 G F0", 2, 2, 2, 2, 2, "thorough", 3600),
+    ("ok", "F- F- F+", 2, 2, 0, 2, 2, "thorough", 3600),
 ]
 C13_STREAMS = [
     ("mem", "F+", 3, 6, 0, 2, 3, "quick", 600),
@@ -130,6 +137,8 @@ C13_STREAMS = [
     ("mem", "G", 3, 0, 5, 2, 3, "quick", 600),
     ("mem", "F- G", 3, 4, 3, 2, 2, "thorough", 1800),
     ("mem", "F+", 7, 8, 0, 2, 2, "thorough", 1800),
+    ("mem", "F+ G F-", 3, 3, 2, 2, 2, "thorough", 3600),
+    ("mem", "F-", 2, 6, 0, 2, 3, "thorough", 1800),
 ]
 C14_STREAMS = [
     ("rev", "F+", 3, 5, 0, 2, 2, "quick", 600),
@@ -137,6 +146,8 @@ C14_STREAMS = [
     ("rev", "F- G", 3, 3, 2, 2, 2, "thorough", 1800),
     ("rev", "F- F+", 2, 3, 0, 2, 2, "thorough", 3600),
     ("rev", "F+ G F-", 3, 3, 2, 2, 2, "thorough", 3600),
+    ("rev", "G F+ F-", 2, 2, 2, 2, 2, "thorough", 3600),
+    ("rev", "F+", 4, 8, 0, 3, 3, "thorough", 3600),
 ]
 C14_KNOWN = [
     ("rev", "F0", 3, 4, 0, 2, 2, "quick", 600),
